@@ -137,7 +137,10 @@ fn tag_call_mismatch(exp: &Outcome, obs: &Obs, mode: Mode) -> Vec<&'static str> 
                     _ => vec!["C07"],
                 },
                 (None, None) => match (a, b) {
-                    (Src::Real, Src::Default) | (Src::Default, Src::Real) => vec!["C07"],
+                    // the registered real function should have run, the default body did
+                    (Src::Real, Src::Default) => vec!["C07", "C16"],
+                    // the trait's own default body should have run, the real function did
+                    (Src::Default, Src::Real) => vec!["C07", "C15"],
                     (Src::Real, Src::Real) => vec!["C16"],
                     (Src::Default, Src::Default) => vec!["C15"],
                     _ => vec!["C07"],
